@@ -78,8 +78,11 @@ class FeedServer(threading.Thread):
                             break
                     c.close()
                     break
-                if conn_script.get("then", "hold") == "close":
+                if conn_script.get("then", "hold") in ("close", "reset"):
                     time.sleep(conn_script.get("linger", 0.3))
+                    if conn_script["then"] == "reset":
+                        # the connection is aborted (RST), not closed: the client's next read fails instead of reporting the end
+                        c.setsockopt(socket.SOL_SOCKET, socket.SO_LINGER, struct.pack("ii", 1, 0))
                     c.close()
                     self.log.append(("closed", ci))
                     if conn_script.get("pause"):
